@@ -37,7 +37,8 @@ Record ModOK (T : path) (st : modst) (tm : pymod) : Prop := mkModOK {
   mo_f5 : pall tm = None -> forall c, In c (children_of ms T) -> starts_underscore c = false ->
           lookup c (pns tm) <> None -> mem_str c (imports st) = true;
   mo_imports : forall n, mem_str n (imports st) = true -> lookup n (pns tm) <> None;
-  mo_wrap : forall n src inner ln, lookup n (members st) = Some (MWrap src inner ln) -> exists T' n', src = T' ++ [n'] /\ Pexec T'
+  mo_wrap : forall n src inner ln, lookup n (members st) = Some (MWrap src inner ln) -> exists T' n', src = T' ++ [n'] /\ Pexec T';
+  mo_noflag : forall n m, lookup n (members st) = Some m -> star_flagged m = false      (* every wildcard import was expanded *)
 }.
 
 Hypothesis HH1 : 1 <= H.
@@ -106,19 +107,28 @@ Qed.
 
 (* ---- what a wildcard import of an executed module exposes ---- *)
 Definition X (T : path) : list (string * member) :=
-  match get_mod t T with Some st => exposed_members st | None => [] end.
+  match get_mod t T with Some st => importable_members st | None => [] end.
 
 Lemma X_nodup T : NoDup (map fst (X T)).
 Proof.
   unfold X. destruct (get_mod t T) as [st|] eqn:E; [|constructor].
-  unfold exposed_members. apply filter_keys_nodup. eapply Hkeys; eauto.
+  unfold importable_members, exposed_members. apply filter_keys_nodup. apply filter_keys_nodup. eapply Hkeys; eauto.
 Qed.
 
 Lemma X_member T st n m : get_mod t T = Some st -> lookup n (X T) = Some m ->
   lookup n (members st) = Some m /\ wildcard_exposed st n m = true.
 Proof.
-  intros Hst Hx. unfold X in Hx. rewrite Hst in Hx. unfold exposed_members in Hx.
+  intros Hst Hx. unfold X in Hx. rewrite Hst in Hx. unfold importable_members, exposed_members in Hx.
+  apply lookup_filter in Hx; [|apply filter_keys_nodup; eapply Hkeys; eauto]. destruct Hx as [Hx _].
   apply lookup_filter in Hx; [|eapply Hkeys; eauto]. exact Hx.
+Qed.
+
+Lemma X_lookup_some T st n m : get_mod t T = Some st -> NoDup (map fst (members st)) ->
+  lookup n (members st) = Some m -> wildcard_exposed st n m = true -> star_flagged m = false -> lookup n (X T) = Some m.
+Proof.
+  intros Hst Hnd Hl He Hf. unfold X. rewrite Hst. unfold importable_members, exposed_members.
+  apply lookup_filter_some; [apply filter_keys_nodup; auto|apply lookup_filter_some; auto|].
+  simpl. destruct m as [| |tg l0 [|]|]; simpl in Hf; try discriminate; reflexivity.
 Qed.
 
 Lemma exposed_is_star_name T tm n m :
@@ -148,7 +158,6 @@ Lemma star_name_is_exposed T tm n v :
 Proof.
   intros Hg Hn Ha. destruct (Hdone T tm Hg) as [Hreach [st [Hst Hok]]].
   assert (Hnd : NoDup (map fst (members st))) by (eapply Hkeys; eauto).
-  unfold X. rewrite Hst. unfold exposed_members.
   pose proof (mo_exports T st tm Hok) as Hex. unfold py_star_names in Hn. unfold py_attr in Ha. rewrite Hg in Ha.
   destruct (exports st) as [ex|] eqn:Ee; destruct (pall tm) as [l|] eqn:Ep; try contradiction.
   - (* __all__ defined *)
@@ -163,8 +172,8 @@ Proof.
         + assert (Hf : mem_str n (children_of ms T) = false).
           { destruct (mem_str n (children_of ms T)) eqn:E; auto. apply mem_str_In in E. contradiction. }
           rewrite Hf in Ha. discriminate. }
-    destruct Hm as [m Hm]. exists m. apply lookup_filter_some; auto. simpl. unfold wildcard_exposed. rewrite Ee.
-    apply in_exports_In. apply Hex. auto.
+    destruct Hm as [m Hm]. exists m. apply (X_lookup_some T st n m Hst Hnd Hm); [|eapply mo_noflag; eauto].
+    unfold wildcard_exposed. rewrite Ee. apply in_exports_In. apply Hex. auto.
   - (* no __all__: the public names *)
     apply in_map_iff in Hn. destruct Hn as [[n' v'] [Hn' Hin]]. simpl in Hn'. subst n'. apply filter_In in Hin.
     destruct Hin as [Hin Hpub]. simpl in Hpub. destruct (starts_underscore n) eqn:Eu; try discriminate.
@@ -173,11 +182,12 @@ Proof.
     assert (Hpl : plain n = true) by (eapply mo_plain; eauto).
     destruct (in_dec string_dec n (children_of ms T)) as [Hc|Hc].
     + destruct (child_member T n Hc) as [st' [Hst' Hsub]]. rewrite Hst in Hst'. inversion Hst'; subst st'.
-      exists MSub. apply lookup_filter_some; auto. simpl. unfold wildcard_exposed. rewrite Ee, Eu.
+      exists MSub. apply (X_lookup_some T st n MSub Hst Hnd Hsub); [|reflexivity]. unfold wildcard_exposed. rewrite Ee, Eu.
       apply (mo_f5 T st tm Hok Ep n Hc Eu). congruence.
     + pose proof (mo_rel T st tm Hok n Hc (plain_not_dunder n Hpl)) as Hr. rewrite Hv in Hr.
       destruct (lookup n (members st)) as [m|] eqn:Em; [|contradiction]. destruct Hr as [Hns _].
-      exists m. apply lookup_filter_some; auto. simpl. unfold wildcard_exposed. rewrite Ee, Eu. destruct m; auto; contradiction.
+      exists m. apply (X_lookup_some T st n m Hst Hnd Em); [|eapply mo_noflag; eauto].
+      unfold wildcard_exposed. rewrite Ee, Eu. destruct m; auto; contradiction.
 Qed.
 
 (* the member a wildcard import creates for an exposed name resolves to the value CPython copies *)
@@ -972,6 +982,28 @@ Proof.
       { clear -Hl. revert Hl. generalize (star_names_of (members st0)). generalize (members st0). intros l ks. revert l.
         induction ks as [|k ks IH]; intros l Hl; simpl in Hl; auto. apply IH in Hl. eapply remove_key_In; eauto. }
       apply (In_lookup_nodup _ _ _ st0_keys_nodup) in Hm. congruence.
+Qed.
+
+(* every wildcard pseudo-member of mp is gone *)
+Lemma ms2_noflag n m : lookup n ms2 = Some m -> star_flagged m = false.
+Proof.
+  revert n m. apply (fold_entries_inv (fun l => forall n m, lookup n l = Some m -> star_flagged m = false)).
+  - intros msr e He Hq n m Hl. destruct (string_dec n (e_name e)) as [Heq|Hne].
+    + subst n. rewrite lookup_assign_same in Hl. inversion Hl; subst m. reflexivity.
+    + rewrite lookup_assign_other in Hl by auto. eapply Hq; eauto.
+  - intros msr e old He Hq Ho n m Hl. destruct (string_dec n (e_name e)) as [Heq|Hne].
+    + subst n. rewrite lookup_assign_same in Hl. inversion Hl; subst m. pose proof (Hq _ _ Ho) as Hf.
+      destruct old as [| |tg l0 [|]|]; simpl in *; auto.
+    + rewrite lookup_assign_other in Hl by auto. eapply Hq; eauto.
+  - intros n m Hl. destruct (star_flagged m) eqn:Ef; auto. exfalso.
+    assert (Hm : lookup n (members st0) = Some m).
+    { unfold ms1r in Hl. rewrite Hst1m in Hl. clear -Hl. assert (Hnd := st0_keys_nodup). revert Hl. generalize (star_names_of (members st0)).
+      revert Hnd. generalize (members st0). intros l Hnd ks. revert l Hnd. induction ks as [|k ks IH]; intros l Hnd Hl; simpl in Hl; auto.
+      apply IH in Hl; [|apply remove_key_nodup; auto]. apply In_lookup_nodup; auto. eapply remove_key_In. apply lookup_In. eauto. }
+    assert (Hin : In n (star_names_of (members st0))).
+    { unfold star_names_of. apply in_flat_map. exists (n, m). split; [apply lookup_In; auto|].
+      destruct m as [| |tg l0 [|]|]; simpl in Ef; try discriminate. simpl. auto. }
+    unfold ms1r in Hl. rewrite Hst1m in Hl. rewrite (remove_keys_gone n _ _ st0_keys_nodup Hin) in Hl. discriminate.
 Qed.
 
 Lemma ms2_other n : (forall e, In e entries -> e_name e <> n) -> lookup n ms2 = lookup n ms1r.
